@@ -15,7 +15,7 @@ fn lst(v: &Value) -> Vec<String> {
 
 fn run_sched(out: &mut Out, s: &Value) {
     let cfg = json!({"concurrency": 8});
-    let mut run = Run::new(&cfg);
+    let mut run: Run = Run::new(&cfg);
     let init = lst(&s["init"]);
     {
         let b = run.rig.swarm.behaviour();
@@ -45,17 +45,17 @@ fn run_sched(out: &mut Out, s: &Value) {
         match vcommon::s(c, "c").as_str() {
             "set" => {
                 let l = lst(&c["list"]);
-                let h = run.rig.swarm.behaviour().b1.ctl.handler(cid).unwrap();
+                let h = run.behs()[0].ctl.handler(cid).unwrap();
                 h.lock().unwrap().protocols = l.clone();
-                run.rig.swarm.behaviour().b1.ctl.wake_handler(cid);
+                run.behs()[0].ctl.wake_handler(cid);
                 evs.push(adv(&l));
             }
             "remote" => {
                 let l = lst(&c["list"]);
                 let added = vcommon::b(c, "added");
-                let h = run.rig.swarm.behaviour().b1.ctl.handler(cid).unwrap();
+                let h = run.behs()[0].ctl.handler(cid).unwrap();
                 h.lock().unwrap().report_remote.push_back((added, l.clone()));
-                run.rig.swarm.behaviour().b1.ctl.wake_handler(cid);
+                run.behs()[0].ctl.wake_handler(cid);
                 evs.push(json!({"e": "report", "added": added, "list": l.iter().filter(|n| n.starts_with('/')).collect::<Vec<_>>()}));
             }
             "poll" => {
